@@ -173,6 +173,19 @@ func concRun(fn, nfn, dfn, prefix string, quickP, thoroughP int, crash bool, qui
 		Desc: harnessDesc(cmdPkg, dfn, prefix), CanaryShapes: canary}
 }
 
+// thoroughOnly makes a run contribute jobs in the thorough tier only.
+func thoroughOnly(r HarnessRun, tag string) HarnessRun {
+	inner := r.Shapes
+	r.Tag = tag
+	r.Shapes = func(s *Session, tier string) []int {
+		if tier != "thorough" {
+			return nil
+		}
+		return inner(s, tier)
+	}
+	return r
+}
+
 func concBounds(what string, crash bool) func(tier string) map[string]any {
 	return func(tier string) map[string]any {
 		p := 1
@@ -239,8 +252,13 @@ var specs = map[string]*CheckSpec{
 	},
 	"C07": {
 		ID: "C07", Patterns: []string{cmdPkg}, NeedHelper: true, Instrument: true,
-		Runs:        []HarnessRun{concRun("ZZ_C07", "ZZ_C07N", "ZZ_C07Desc", "", 1, 2, true, nil, []int{0, 1})},
-		Bounds:      concBounds("two concurrent writes with one idempotency key (create/create, metadata/metadata, create/metadata, revert/revert), then stop-or-crash, restart and a retry with the same key", true),
+		Runs: []HarnessRun{concRun("ZZ_C07", "ZZ_C07N", "ZZ_C07Desc", "", 1, 1, true, nil, []int{0, 1}),
+			thoroughOnly(concRun("ZZ_C07", "ZZ_C07N", "ZZ_C07Desc", "no crash, budget 2:", 2, 2, false, nil, []int{}), "-p2")},
+		Bounds: func(tier string) map[string]any {
+			b := concBounds("two concurrent writes with one idempotency key (create/create, metadata/metadata, create/metadata, revert/revert), then stop-or-crash, restart and a retry with the same key", true)(tier)
+			b["preemption_budget"] = "1 with the crash decision (both tiers); thorough adds a second pass with budget 2 and no crash (crash x budget 2 does not finish: > 60 min, > 20 GB)"
+			return b
+		},
 		Assumptions: concAssume, Encoded: cmdEncoded,
 		Rule:        "at most one log entry carries the key; all successful responses name the same transaction",
 		MaxPaths:    func(tier string) int { return 2000000 },
@@ -344,6 +362,7 @@ var specs = map[string]*CheckSpec{
 		},
 		Assumptions: cmdStubs, Encoded: append([]string{"ledger.(*TransactionData).Reverse", "ledger.Postings.Reverse", "ledger.MarkReverts"}, cmdEncoded...),
 		Rule: "create the original, optionally move the funds on, revert (forced or not), revert again; postings, reverted flag, balances and log count compared symbolically",
+		MaxPaths: func(tier string) int { return 2000000 },
 	},
 	"C13": {
 		ID: "C13", Patterns: []string{cmdPkg}, NeedHelper: true,
@@ -371,8 +390,8 @@ var specs = map[string]*CheckSpec{
 	"C16": {
 		ID: "C16", Patterns: []string{cmdPkg}, NeedHelper: true,
 		Runs:   []HarnessRun{commandRun("ZZ_C16", rangeShapes(21), kindModeDesc, []int{0, 9})},
-		Bounds: cmdBounds, Assumptions: append([]string{"the monitor is a recording implementation of bus.Monitor; bus.ledgerMonitor's field mapping is checked separately (ZZ_C16Bus)"}, cmdStubs...), Encoded: cmdEncoded,
-		Rule: "per write kind x {real, preview, repeated through an idempotency key}: every monitor call is matched against a persisted log (ids symbolic), every persisted log has an event",
+		Bounds: cmdBounds, Assumptions: append([]string{"the commander publishes through the real bus.ledgerMonitor into a recording message.Publisher; publish.NewMessage is modelled (payload = JSON model of the real EventMessage; uuid and otel context constant)"}, cmdStubs...), Encoded: append([]string{"bus.(*ledgerMonitor).CommittedTransactions/SavedMetadata/RevertedTransaction/DeletedMetadata/publish", "bus.NewEventCommittedTransactions/NewEventSavedMetadata/NewEventRevertedTransaction/NewEventDeletedMetadata"}, cmdEncoded...),
+		Rule: "per write kind x {real, preview, repeated through an idempotency key}: every published message is decoded from its JSON payload and matched against a persisted log (ids symbolic), every persisted log has an event",
 	},
 	"C03": {
 		ID: "C03", Patterns: []string{vmPkg}, NeedShapes: true, NeedHelper: true,
